@@ -360,6 +360,227 @@ func init() {
 			return Result{}, fmt.Errorf("experimental flag constants not found")
 		}
 
+		// ---- worker.Intersection.Execute: the scan that picks the smallest bag and lists the others ----
+		fsetI, fI, err := parseFile(repo, "internal/listobjects/pipeline/internal/worker/intersection.go")
+		if err != nil {
+			return Result{}, err
+		}
+		iex := findFunc(fI, "Intersection", "Execute")
+		if iex == nil {
+			return Result{}, fmt.Errorf("worker.Intersection.Execute not found")
+		}
+		var interInit, interBody, interFilter []string
+		interHeader, interOutput, interNewMinPush, interElsePush, interCompare := "", "", "", "", ""
+		var interNewMinUpdates []string
+		flat := func(fset *token.FileSet, list []ast.Stmt) []string { // statements of a block, if/else flattened one level
+			var out []string
+			var walk func(list []ast.Stmt)
+			walk = func(list []ast.Stmt) {
+				for _, st := range list {
+					switch x := st.(type) {
+					case *ast.IfStmt:
+						head := src(fset, x.Cond)
+						if x.Init != nil {
+							head = src(fset, x.Init) + "; " + head
+						}
+						out = append(out, "if "+head)
+						walk(x.Body.List)
+						if x.Else != nil {
+							out = append(out, "else")
+							if eb, ok := x.Else.(*ast.BlockStmt); ok {
+								walk(eb.List)
+							} else {
+								walk([]ast.Stmt{x.Else})
+							}
+						}
+						out = append(out, "end")
+					case *ast.RangeStmt:
+						out = append(out, "range "+src(fset, x.X))
+						walk(x.Body.List)
+						out = append(out, "end")
+					default:
+						out = append(out, src(fset, st))
+					}
+				}
+			}
+			walk(list)
+			return out
+		}
+		appendArg := func(fset *token.FileSet, st ast.Stmt) string { // `inputs = append(inputs, X)` -> X
+			as, ok := st.(*ast.AssignStmt)
+			if !ok || len(as.Lhs) != 1 || len(as.Rhs) != 1 || src(fset, as.Lhs[0]) != "inputs" {
+				return ""
+			}
+			ce, ok := as.Rhs[0].(*ast.CallExpr)
+			if !ok || src(fset, ce.Fun) != "append" || len(ce.Args) != 2 || src(fset, ce.Args[0]) != "inputs" {
+				return ""
+			}
+			return src(fset, ce.Args[1])
+		}
+		for k, st := range iex.Body.List {
+			fs, ok := st.(*ast.ForStmt)
+			if !ok || fs.Init == nil || fs.Cond == nil || fs.Post == nil || !strings.Contains(src(fsetI, fs.Cond), "len(w.bags)") {
+				if ls, ok := st.(*ast.LabeledStmt); ok && ls.Label.Name == "OutputLoop" {
+					interFilter = flat(fsetI, []ast.Stmt{ls.Stmt})
+				}
+				if as, ok := st.(*ast.AssignStmt); ok && len(as.Lhs) == 1 && src(fsetI, as.Lhs[0]) == "output" {
+					interOutput = src(fsetI, as)
+				}
+				continue
+			}
+			if _, isRange := st.(*ast.RangeStmt); isRange {
+				continue
+			}
+			interHeader = src(fsetI, fs.Init) + "; " + src(fsetI, fs.Cond) + "; " + src(fsetI, fs.Post)
+			for _, prev := range iex.Body.List[:k] {
+				if as, ok := prev.(*ast.AssignStmt); ok && len(as.Lhs) == 1 {
+					if n := src(fsetI, as.Lhs[0]); n == "objMin" || n == "indexMin" {
+						interInit = append(interInit, src(fsetI, as))
+					}
+				}
+			}
+			interBody = flat(fsetI, fs.Body.List)
+			for _, b := range fs.Body.List {
+				is, ok := b.(*ast.IfStmt)
+				if !ok {
+					continue
+				}
+				interCompare = src(fsetI, is.Cond)
+				for _, t := range is.Body.List {
+					if a := appendArg(fsetI, t); a != "" {
+						interNewMinPush = a
+					} else {
+						interNewMinUpdates = append(interNewMinUpdates, src(fsetI, t))
+					}
+				}
+				if eb, ok := is.Else.(*ast.BlockStmt); ok && len(eb.List) == 1 {
+					interElsePush = appendArg(fsetI, eb.List[0])
+				}
+			}
+		}
+		if interHeader == "" || interNewMinPush == "" || interElsePush == "" || interOutput == "" || len(interFilter) == 0 {
+			return Result{}, fmt.Errorf("worker.Intersection.Execute: scan over w.bags / output loop not recognised")
+		}
+		var interCancelConds []string
+		ast.Inspect(iex.Body, func(n ast.Node) bool {
+			if is, ok := n.(*ast.IfStmt); ok && len(is.Body.List) == 1 {
+				if b := src(fsetI, is.Body.List[0]); b == "cancel()" || b == "return" {
+					interCancelConds = append(interCancelConds, src(fsetI, is.Cond)+" => "+b)
+				}
+			}
+			return true
+		})
+
+		// ---- loopOverEdges: which errors of the residual-check pool are elided ----
+		loe := findFunc(fW, "ReverseExpandQuery", "loopOverEdges")
+		if loe == nil {
+			return Result{}, fmt.Errorf("loopOverEdges not found")
+		}
+		elideScope, elideReturnsNil, elideFound := "", false, false
+		var elideDisjuncts []string
+		var splitOr func(e ast.Expr) []string
+		splitOr = func(e ast.Expr) []string {
+			if p, ok := e.(*ast.ParenExpr); ok {
+				return splitOr(p.X)
+			}
+			if be, ok := e.(*ast.BinaryExpr); ok && be.Op == token.LOR {
+				return append(splitOr(be.X), splitOr(be.Y)...)
+			}
+			return []string{src(fsetW, e)}
+		}
+		var loeTail []string // everything from `err := pool.Wait()` to the end of the function, flattened
+		for k, st := range loe.Body.List {
+			as, ok := st.(*ast.AssignStmt)
+			if !ok || len(as.Rhs) != 1 || src(fsetW, as.Rhs[0]) != "pool.Wait()" {
+				continue
+			}
+			loeTail = flat(fsetW, loe.Body.List[k:])
+			for _, st2 := range loe.Body.List[k+1:] {
+				outer, ok := st2.(*ast.IfStmt)
+				if !ok || src(fsetW, outer.Cond) != "err != nil" {
+					continue
+				}
+				for _, st3 := range outer.Body.List {
+					is, ok := st3.(*ast.IfStmt)
+					if !ok || !strings.Contains(src(fsetW, is.Cond), "errors.As(") {
+						continue
+					}
+					elideScope = src(fsetW, is.Cond)
+					elideFound = true
+					for _, st4 := range is.Body.List {
+						switch x := st4.(type) {
+						case *ast.ReturnStmt:
+							if len(x.Results) == 1 && src(fsetW, x.Results[0]) == "nil" {
+								elideReturnsNil = true // unconditional
+								elideDisjuncts = nil
+							}
+						case *ast.IfStmt:
+							if len(x.Body.List) == 1 && src(fsetW, x.Body.List[0]) == "return nil" && !elideReturnsNil {
+								elideReturnsNil = true
+								elideDisjuncts = splitOr(x.Cond)
+							}
+						}
+					}
+				}
+			}
+		}
+		if len(loeTail) == 0 {
+			return Result{}, fmt.Errorf("loopOverEdges: `err := pool.Wait()` not found")
+		}
+		_ = elideFound
+		// the analogous filters of the classic path (evaluate) and of the pipeline branch (Execute / ExecuteStreamed)
+		var evaluateReportGuards, pipelineReportGuards []string
+		ast.Inspect(ev.Body, func(n ast.Node) bool {
+			if is, ok := n.(*ast.IfStmt); ok && strings.Contains(src(fsetL, is.Body), "resultsChan <- ListObjectsResult{Err: err}") &&
+				strings.Contains(src(fsetL, is.Cond), "errors.Is") {
+				evaluateReportGuards = append(evaluateReportGuards, src(fsetL, is.Cond))
+			}
+			return true
+		})
+		exs := findFunc(fL, "ListObjectsQuery", "ExecuteStreamed")
+		if exs == nil {
+			return Result{}, fmt.Errorf("ExecuteStreamed not found")
+		}
+		storeOpts := func(fd *ast.FuncDecl) []string {
+			var out []string
+			ast.Inspect(fd.Body, func(n ast.Node) bool {
+				if ce, ok := n.(*ast.CallExpr); ok && src(fsetL, ce.Fun) == "pipeline.NewValidatingStore" {
+					for _, a := range ce.Args {
+						out = append(out, src(fsetL, a))
+					}
+				}
+				return true
+			})
+			return out
+		}
+		for _, fd := range []*ast.FuncDecl{exe, exs} {
+			ast.Inspect(fd.Body, func(n ast.Node) bool {
+				if is, ok := n.(*ast.IfStmt); ok && is.Init != nil && strings.Contains(src(fsetL, is.Init), "p.Err()") {
+					for _, st := range is.Body.List {
+						if in, ok := st.(*ast.IfStmt); ok {
+							pipelineReportGuards = append(pipelineReportGuards, src(fsetL, in.Cond))
+						}
+					}
+				}
+				return true
+			})
+		}
+		storeOptsUnary, storeOptsStreamed := storeOpts(exe), storeOpts(exs)
+		if len(storeOptsUnary) == 0 || len(storeOptsStreamed) == 0 {
+			return Result{}, fmt.Errorf("pipeline.NewValidatingStore not found in Execute / ExecuteStreamed")
+		}
+		var evaluateConsistency []string
+		ast.Inspect(ev.Body, func(n ast.Node) bool {
+			if cl, ok := n.(*ast.CompositeLit); ok && cl.Type != nil {
+				for _, el := range cl.Elts {
+					if kv, ok := el.(*ast.KeyValueExpr); ok && src(fsetL, kv.Key) == "Consistency" {
+						evaluateConsistency = append(evaluateConsistency, src(fsetL, cl.Type)+".Consistency = "+src(fsetL, kv.Value))
+					}
+				}
+			}
+			return true
+		})
+
 		var sb strings.Builder
 		sb.WriteString(genHeader)
 		sb.WriteString("namespace OpenFGAVerif.Gen.ListObjects\n\n")
@@ -392,6 +613,34 @@ func init() {
 		sb.WriteString("def weightedSkipsEmptyUserFilter : Bool := " + b(skipsEmptyFilter) + "\n")
 		sb.WriteString("def flagOptimizations : String := " + leanStr(flagOpt) + "\n")
 		sb.WriteString("def flagPipeline : String := " + leanStr(flagPipe) + "\n")
+		sb.WriteString("\n/-- worker.Intersection.Execute (streaming pipeline): the scan over `w.bags` that selects the smallest bag -/\n")
+		sb.WriteString("def interScanInit : List String := " + leanStrList(interInit) + "\n")
+		sb.WriteString("def interScanHeader : String := " + leanStr(interHeader) + "\n")
+		sb.WriteString("def interScanBody : List String := " + leanStrList(interBody) + "\n")
+		sb.WriteString("def interCompare : String := " + leanStr(interCompare) + "\n")
+		sb.WriteString("/-- what is appended to `inputs` when a new smallest bag is found / otherwise -/\n")
+		sb.WriteString("def interNewMinPush : String := " + leanStr(interNewMinPush) + "\n")
+		sb.WriteString("def interElsePush : String := " + leanStr(interElsePush) + "\n")
+		sb.WriteString("def interNewMinUpdates : List String := " + leanStrList(interNewMinUpdates) + "\n")
+		sb.WriteString("def interOutput : String := " + leanStr(interOutput) + "\n")
+		sb.WriteString("def interFilterLoop : List String := " + leanStrList(interFilter) + "\n")
+		sb.WriteString("def interCancelConds : List String := " + leanStrList(interCancelConds) + "\n")
+		sb.WriteString("\n/-- loopOverEdges (weighted engine) after `err := pool.Wait()`: flattened statements, and the guard of `return nil` -/\n")
+		sb.WriteString("def weightedWaitTail : List String := " + leanStrList(loeTail) + "\n")
+		sb.WriteString("def weightedElideScope : String := " + leanStr(elideScope) + "\n")
+		sb.WriteString("/-- some error of the pool is turned into `nil` … -/\n")
+		sb.WriteString("def weightedElideReturnsNil : Bool := " + b(elideReturnsNil) + "\n")
+		sb.WriteString("/-- … when one of these holds (empty = unconditionally) -/\n")
+		sb.WriteString("def weightedElideDisjuncts : List String := " + leanStrList(elideDisjuncts) + "\n")
+		sb.WriteString("/-- evaluate: the pool error is put on the result channel when … -/\n")
+		sb.WriteString("def evaluateReportGuards : List String := " + leanStrList(evaluateReportGuards) + "\n")
+		sb.WriteString("/-- Execute / ExecuteStreamed, pipeline branch: p.Err() is returned when … -/\n")
+		sb.WriteString("def pipelineReportGuards : List String := " + leanStrList(pipelineReportGuards) + "\n")
+		sb.WriteString("\n/-- arguments of pipeline.NewValidatingStore in Execute / ExecuteStreamed -/\n")
+		sb.WriteString("def pipelineStoreArgsUnary : List String := " + leanStrList(storeOptsUnary) + "\n")
+		sb.WriteString("def pipelineStoreArgsStreamed : List String := " + leanStrList(storeOptsStreamed) + "\n")
+		sb.WriteString("/-- evaluate (classic / weighted engine): the literals that carry the consistency preference -/\n")
+		sb.WriteString("def evaluateConsistency : List String := " + leanStrList(evaluateConsistency) + "\n")
 		sb.WriteString("\nend OpenFGAVerif.Gen.ListObjects\n")
 		return Result{Lean: sb.String(), Summary: map[string]interface{}{
 			"edgeSwitchCases": cases, "intersectionPrunedChild": interChild, "differencePrunedChild": diffChild,
